@@ -6,6 +6,7 @@ P (function level): every recognised request handled by Logix.request (4 tag ser
   escape (so one request can not end the session); the bundle hands each member to the target once.
 B: request sequences through the real logix.process and the real server over TCP, pipelined.
 """
+from .util import distinct_keys
 import random
 
 from . import logix_common as LC
@@ -242,7 +243,7 @@ def bounded(tier, seed):
         if (st == 0) != accept:
             violations.append(dict(key='personality %r request route %r' % (cfg, rq), observed='encapsulation status 0x%x' % st,
                                    required='status 0' if accept else 'a non-zero encapsulation status'))
-    return dict(evaluations=ev, distinct_nontrivial=len(distinct),
+    return dict(evaluations=ev, distinct_nontrivial=len(distinct), distinct_keys=distinct_keys(distinct),
                 rule='(a) seeded operation lists (valid, out-of-range, wrong type mixed) through the real server over TCP: synchronous vs pipelined '
                      'depth 3/10 vs bundled: one result per operation, same order, same statuses/values; (b) hand-encoded SendRRData frames (reference '
                      'encoder written from the layout tables), N requests written before any reply is read: N replies in order, same sender context, '
